@@ -83,10 +83,11 @@ type scenario struct {
 	Depth     int    // wrapper chain depth (>= Skip)
 	Inlinable bool
 	Privacy   bool
+	PrevSkip  int // -1: none; otherwise SetSkip(PrevSkip) is called before the final skip is set
 }
 
 func (s scenario) String() string {
-	return fmt.Sprintf("%s format=%s logger=%s skip=%d(%s) wrappers=%d inlinable=%v privacy=%v", sites[s.Site].Name, s.Format, s.Kind, s.Skip, s.SkipHow, s.Depth, s.Inlinable, s.Privacy)
+	return fmt.Sprintf("%s format=%s logger=%s skip=%d(%s, previous SetSkip %d) wrappers=%d inlinable=%v privacy=%v", sites[s.Site].Name, s.Format, s.Kind, s.Skip, s.SkipHow, s.PrevSkip, s.Depth, s.Inlinable, s.Privacy)
 }
 
 func run(t vlib.TB, test string, sc scenario) {
@@ -106,7 +107,10 @@ func run(t vlib.TB, test string, sc scenario) {
 	default:
 		lg = slog.New("root")
 	}
-	if sc.Skip > 0 || sc.SkipHow == "SetSkip" {
+	if sc.PrevSkip >= 0 {
+		lg.SetSkip(sc.PrevSkip) // an earlier skip count must not survive the next SetSkip / leak into a WithSkip child
+	}
+	if sc.Skip > 0 || sc.SkipHow == "SetSkip" || sc.PrevSkip >= 0 {
 		if sc.SkipHow == "WithSkip" {
 			lg = lg.WithSkip(sc.Skip)
 		} else {
@@ -256,6 +260,7 @@ func TestSampled(t *testing.T) {
 		sc.Depth = rapid.IntRange(sc.Skip, 4).Draw(t, "depth")
 		sc.Inlinable = rapid.Bool().Draw(t, "inlinable")
 		sc.Privacy = rapid.IntRange(0, 3).Draw(t, "privacy") != 0
+		sc.PrevSkip = rapid.SampledFrom([]int{-1, -1, 0, 1, 3}).Draw(t, "previousSkip")
 		run(t, "TestSampled", sc)
 	})
 }
@@ -274,8 +279,13 @@ func TestMatrix(t *testing.T) {
 								if skip == 0 && how == "SetSkip" && depth != skip {
 									continue
 								}
-								run(t, "TestMatrix", scenario{Site: si, Format: f, Kind: k, Skip: skip, SkipHow: how, Depth: depth, Inlinable: inl, Privacy: true})
+								run(t, "TestMatrix", scenario{Site: si, Format: f, Kind: k, Skip: skip, SkipHow: how, Depth: depth, Inlinable: inl, Privacy: true, PrevSkip: -1})
 								n++
+								if how == "SetSkip" && !inl && depth == 4 {
+									// the same cell after an earlier SetSkip(2) on the same logger
+									run(t, "TestMatrix", scenario{Site: si, Format: f, Kind: k, Skip: skip, SkipHow: how, Depth: depth, Inlinable: inl, Privacy: true, PrevSkip: 2})
+									n++
+								}
 							}
 						}
 					}
